@@ -9,6 +9,7 @@ package main
 
 import (
 	"bufio"
+	"bytes"
 	"encoding/hex"
 	"encoding/json"
 	"flag"
@@ -88,17 +89,72 @@ func hx(b []byte) string {
 	return hex.EncodeToString(b)
 }
 func unhex(s string) []byte {
-	if s == "-" {
-		return []byte{}
-	}
 	if s == "nil" {
 		return nil
+	}
+	if s == "-" {
+		return arenaAlloc([]byte{})
 	}
 	b, err := hex.DecodeString(s)
 	if err != nil {
 		panic("harness: bad hex " + s)
 	}
-	return b
+	return arenaAlloc(b)
+}
+
+// Caller-buffer arena (sequential runs only).  Every byte-string argument of one request is placed in ONE buffer, back to
+// back (8 guard bytes between), so each slice handed to the library has spare capacity and is followed in memory by the
+// next argument — the way callers slice keys, contexts and messages out of packets.  After the operation the buffer must
+// be unchanged: a library function that appends to, or writes through, a slice it was only given to read shows up as the
+// reply `caller-buffer-modified`, which no model ever gives.  (Harness code that overwrites its own input on purpose calls
+// arenaAllowWrites first.)
+var arena struct {
+	mu          sync.Mutex
+	on          bool
+	buf, snap   []byte
+	off         int
+	allowWrites bool
+}
+
+const arenaSize = 1 << 20
+
+func arenaReset() {
+	arena.mu.Lock()
+	defer arena.mu.Unlock()
+	if arena.buf == nil {
+		arena.buf = make([]byte, arenaSize)
+		arena.snap = make([]byte, arenaSize)
+	}
+	arena.off = 0
+	arena.allowWrites = false
+}
+
+func arenaAllowWrites() {
+	arena.mu.Lock()
+	arena.allowWrites = true
+	arena.mu.Unlock()
+}
+
+func arenaAlloc(b []byte) []byte {
+	arena.mu.Lock()
+	defer arena.mu.Unlock()
+	if !arena.on || arena.off+len(b)+8 > arenaSize {
+		return b
+	}
+	o := arena.off
+	copy(arena.buf[o:], b)
+	for i := 0; i < 8; i++ {
+		arena.buf[o+len(b)+i] = 0xc3
+	}
+	copy(arena.snap[o:], arena.buf[o:o+len(b)+8])
+	arena.off = o + len(b) + 8
+	return arena.buf[o : o+len(b)] // capacity reaches to the end of the arena: appends land on the next argument
+}
+
+func arenaIntact() bool {
+	arena.mu.Lock()
+	defer arena.mu.Unlock()
+	return !arena.on || arena.allowWrites || bytes.Equal(arena.buf[:arena.off], arena.snap[:arena.off])
 }
 func b2s(b bool) string {
 	if b {
@@ -120,7 +176,14 @@ func execLine(line string) string {
 		return "timeout (skipped: too many earlier timeouts)"
 	}
 	done := make(chan string, 1)
-	go func() { done <- execLineInner(line) }()
+	arenaReset()
+	go func() {
+		r := execLineInner(line)
+		if !arenaIntact() {
+			r = "caller-buffer-modified " + r
+		}
+		done <- r
+	}()
 	select {
 	case r := <-done:
 		return r
@@ -233,6 +296,7 @@ func main() {
 	distinct := map[string]bool{}
 	nontrivial := 0
 	replies := make([]string, len(lines))
+	arena.on = *par <= 1 && os.Getenv("VERIF_NO_ARENA") == ""
 	if *par > 1 {
 		// concurrent execution against the shared package-level state of the library (tables, constants, buffers):
 		// every reply must still be what the sequential model predicts
